@@ -69,14 +69,14 @@ func (it *c20Iter) blocking() bool {
 func (it *c20Iter) reverse() bool { return strings.Contains(it.kind, "-rev") }
 
 func runC20(r *kit.Run) {
-	n := int64(r.Scale(1400, 400000))
+	n := int64(r.Scale(1400, 1200000))
 	for i := int64(0); i < n && !r.Stopped(); i++ {
 		if !r.Mine(i) {
 			continue
 		}
 		c20Scenario(r, i, r.Rng("scn", i))
 	}
-	nh := int64(r.Scale(150, 6000))
+	nh := int64(r.Scale(150, 18000))
 	for i := int64(0); i < nh && !r.Stopped(); i++ {
 		if !r.Mine(i) {
 			continue
